@@ -11,17 +11,17 @@ CLAIMS = {
          "Thin: the term-level verdict is sound (an exhaustive depth variance is upward closed, a non-exhaustive one is bounded above; a conjunctive term's verdict is definite), the repetition stride rule of TreeExhaustiveness::finalize, the leaf predicate the sequencer applies, and `certainty` never averaging away a non-exhaustive alternative. The sequencer scan (enqueue), the discard rule (fold) and the tree-level parent/child protocol are assumed - the known false positives (`**/{a}`) live there.",
          "TreeExhaustiveness::{enqueue,fold}, Token::fold driver, DisjunctiveTerm (HashSet) assumed; encoder conformance assumed (C01)."),
  "C10": ("proof", "Kani harness-stated contracts (interval soundness via membership, component-counting ground truth) + Verus verbatim Termination::conjunction + Verus lemma",
-         "Depth algebra: x in gamma(a), y in gamma(b) => x+y in gamma(a /\\ b) and x in gamma(a) or gamma(b) => x in gamma(a \\/ b) for all bounds below 2^62 (complete); products for enumerated repetition bounds (bounded) plus a Verus lemma for every repetition count; the real leaf depth terms and the real SeparatedTerm conjunction / finalize against a representation-free component count for all bracketed leaf sequences up to length 4 (bounded in length). The fold driver and DisjunctiveTerm are assumed.",
+         "Depth algebra: x in gamma(a), y in gamma(b) => x+y in gamma(a /\\ b) and x in gamma(a) or gamma(b) => x in gamma(a \\/ b) for all bounds below 2^62 (complete); products for enumerated repetition bounds (bounded) plus a Verus lemma for every repetition count. Component counting: an INDUCTION over the real code -- every real leaf term satisfies a representation relation, the real SeparatedTerm conjunction preserves it for ANY two terms of any variance shape (outside the known-finding region), the real Repetition::finalize preserves it (bounded repetition counts), and the real finalize then contains the component count -- composed by a Verus lemma to every expression built from leaves by concatenation and conjunctive bracketing of any size and nesting; cross-checked against a concrete component count for all bracketed leaf sequences up to length 4. The fold driver and DisjunctiveTerm (alternation) are assumed.",
          "Known finding C10.bracket-before-tree (`/{a/**}`, `**/a{b/**}` over-report the lower bound). Token::fold driver (T3), DisjunctiveTerm set operations, encoder conformance (C01), T6 rule guarantees as preconditions."),
  "C11": ("proof", "Kani harness-stated contracts on the leaf-level sources of text variance and on character casing",
-         "Thin: every leaf-level source of variance reports variant text (wildcards, negated classes, multi-character ranges, cased literal under a mismatching case flag) and a character with any case mapping has casing (all of char, thorough tier). The Text algebra (conjunction / repetition / to_string of fragments) is out of reach, so 'the reported text is the one matched path' is not decided.",
+         "Thin: every leaf-level source of variance reports variant text (wildcards, negated classes, ranges with distinct end points in either order, one-archetype classes invariant exactly when they list one character, cased literal under a mismatching case flag) and a character with any case mapping has casing (all of char, thorough tier). The Text algebra (conjunction / repetition / to_string of fragments) is out of reach (measured again this round), so 'the reported text is the one matched path' is not decided.",
          "Text (VecDeque<Cow<str>>) operators, TextVariance conversion and the fold driver assumed; literals bounded to <= 2 ASCII characters."),
  "C12": ("proof", "Kani harness-stated contracts + Verus verbatim When::{and,or,certainty}",
-         "Thin: the rooting classification of leaves (is_rooting <=> separator or rooted tree wildcard) and the trivalent operators meeting their Kleene / interval semantics (and(x, Sometimes) is never Always). The has_root fold closure, Token::literals and semantic-literal batching are not nameable / out of reach.",
+         "Thin: the rooting classification of leaves (is_rooting <=> separator or rooted tree wildcard); the trivalent operators meeting their Kleene / interval semantics (and(x, Sometimes) is never Always); the REAL components() splitting a concatenation into exactly its path components (bounded: 3 leaf tokens) and a one-literal component being semantic exactly when spelled `.` or `..`. The has_root fold closure and Token::literals (tree search) are not nameable / out of reach.",
          "Token::has_root's local Fold impl, the fold driver, components() batching and the encoder assumed."),
  "C13": ("proof", "Kani harness-stated contracts with a counting mock CancelWalk on the real filter.rs and walk combinators + Verus lemma",
-         "Partial: WHEN the real code asks for cancellation: a tree verdict cancels the input exactly once unless the entry is already tree residue, never for a file verdict / keep / Err, at most once per entry across stacked layers, and cancellation is forwarded to the input unchanged by every combinator. That walkdir's skip_current_dir then prunes exactly that directory is assumed.",
-         "walkdir::IntoIter::skip_current_dir semantics, WalkTree::is_dir bookkeeping, the glob walker's component-matching closure assumed (T4)."),
+         "Partial: WHEN the real code asks for cancellation: a tree verdict cancels the input exactly once unless the entry is already tree residue, never for a file verdict / keep / Err, at most once per entry across stacked layers, and cancellation is forwarded to the input unchanged by every combinator; for negations with a real program (all four program shapes, the regex engine abstracted to an arbitrary oracle) a tree is discarded exactly when the EXHAUSTIVE program matched. That walkdir's skip_current_dir then prunes exactly that directory is assumed.",
+         "walkdir::IntoIter::skip_current_dir semantics, WalkTree::is_dir bookkeeping, the glob walker's component-matching closure, the regex engine (oracle) and the exhaustive / non-exhaustive partition of FilterAny::any (C09 at tree level) assumed (T4)."),
  "C15": ("proof", "Kani harness-stated contracts (window membership) + Verus verbatim pivot functions + Verus window lemma",
          "Depth window: pivot translation of minimum / maximum, the three constructors and the variance translation denote exactly the documented window for all usize inputs.",
          "Known finding C15.max-below-pivot. walkdir min/max depth semantics (A15), link behaviour, cycle detection and termination assumed (T4)."),
@@ -35,7 +35,7 @@ CLAIMS = {
          "Meta-character set = parser stop set minus separator / backslash = escapable set, for every char, against constants re-read from the parser on every run; contextual set likewise; a Verus lemma shows escape-then-tokenise is the identity for any text without backslash; the structure of `escape` itself is only a bounded check (<= 2 ASCII characters).",
          "nom escaped_transform semantics (A18, T4); that the resulting glob matches only the text (C01) and reports invariant text (C11 upper part) not decided."),
  "C19": ("proof", "Kani harness-stated contracts on ownership conversions of leaves, the repetition-bound round trip and owned capture indexing",
-         "Thin: into_owned of leaves preserves kind / text / flag, repetition bounds survive variance() and the read-back compose uses (complete over usize x Option<usize>), OwnedText::get indexing. The fold_map driver, compose / decompose moves, regex Captures conversion, Display / FromStr routes are assumed.",
+         "Thin: into_owned of leaves preserves kind / text / flag; the REAL Repetition::decompose followed by the REAL compose (the step fold_map performs at every repetition) restores the bounds exactly, complete over usize x Option<usize>; OwnedText::get indexing. The fold_map driver itself, regex Captures conversion, Display / FromStr routes are assumed.",
          "fold_map driver (T3), From<&regex::Captures>, Display/FromStr/Pattern routes assumed; literal text bounded to 2 ASCII bytes."),
  "C20": ("proof", "Kani harness-stated contracts on the real FilterEntry / Not / transpose_filtrate over a mock input feeding Err items",
          "Partial: negations and entry filters pass Err items through unchanged (depth, kind), in place, without calling the filter and without cancelling; `filtrate` yields an Err like any other filtrate. Fault generation (walkdir / OS) and 'the remaining entries are those of a fault-free walk' are not decided.",
